@@ -912,4 +912,6 @@ func TestEnum(t *testing.T) {
 	})
 }
 
-func TestReplay(t *testing.T) { core.Replay(t, seqCheck, gridCheck, bigGridCheck, hexCheck) }
+func TestReplay(t *testing.T) {
+	core.Replay(t, seqCheck, gridCheck, bigGridCheck, hexCheck, treeCheck, appendCheck, appendGridCheck)
+}
